@@ -90,7 +90,27 @@ def run(res, tier, seed, replay):
                 n = int(a[3:])
                 if n != e - b + 1 and not (n == 0 and e - b + 1 == 1):
                     spec_bad.append((d, "body lexeme [%d:%d] has length %d but the library delimits %d bytes" % (b, e, e - b + 1, n), i))
-            elif k != 5:
+            elif k == 5:
+                # the library gives no length because the expression it delimits does not COMPILE (it delimits first, at the
+                # first '/' that no odd run of backslashes precedes - notations/regex doCompile - and compiles afterwards): the
+                # lexeme must still end at that '/'
+                rest = d[b:]
+                esc, end_ = False, None
+                for x in range(1, len(rest)):
+                    ch = rest[x:x + 1]
+                    if ch == b"\\":
+                        esc = not esc
+                    elif ch == b"/":
+                        if not esc:
+                            end_ = x
+                            break
+                        esc = False
+                    else:
+                        esc = False
+                if end_ is not None and end_ + 1 != e - b + 1:
+                    spec_bad.append((d, "regex body lexeme [%d:%d] has length %d but the library delimits %d bytes (the first '/' that is not "
+                                        "escaped; the delimited expression does not compile)" % (b, e, e - b + 1, end_ + 1), i))
+            else:
                 # (a regex body is delimited by the scanner's own states; an expression the library cannot compile is refused
                 #  later, when the catalog is built - only its LENGTH is compared here, when the library gives one)
                 spec_bad.append((d, "body lexeme [%d:%d] is not a value the library accepts (%s)" % (b, e, a), i))
